@@ -53,6 +53,7 @@ static int g_trace = 1;
 static long g_access_no = 0;      /* device accesses since start */
 static long g_fault_at = -1;      /* absolute access number that fails; -1 none */
 static long g_fault_every = 0;    /* all accesses >= g_fault_at fail when 1 */
+static long g_fault_count = 1;    /* number of consecutive accesses that fail, starting at g_fault_at */
 static long g_faults_fired = 0;
 static long g_reads_op = 0, g_writes_op = 0;
 static long g_read_limit = 0;     /* abort op (exit 3) when reads in one op exceed */
@@ -146,7 +147,7 @@ RETCODE __real_adfWriteDumpSector(struct AdfDevice * const, const uint32_t, cons
 
 static int fault_now(void) {
     long k = g_access_no++;
-    if (g_fault_at >= 0 && (k == g_fault_at || (g_fault_every && k >= g_fault_at))) {
+    if (g_fault_at >= 0 && ((k >= g_fault_at && k < g_fault_at + g_fault_count) || (g_fault_every && k >= g_fault_at))) {
         g_faults_fired++;
         return 1;
     }
@@ -318,8 +319,9 @@ int main(int argc, char **argv) {
             printf("= ok\n");
         }
         else if (IS("usedirc")) { BOOL b = (BOOL)I(1); adfChgEnvProp(PR_USEDIRC, &b); printf("= ok\n"); }
-        else if (IS("fault")) { g_fault_at = g_access_no + I(1); g_fault_every = (n>2)? I(2) : 0; printf("= ok\n"); }
-        else if (IS("faultclear")) { g_fault_at = -1; g_fault_every = 0; printf("= ok fired=%ld\n", g_faults_fired); }
+        else if (IS("fault")) { g_fault_at = g_access_no + I(1); g_fault_every = (n>2)? I(2) : 0; g_fault_count = 1; printf("= ok\n"); }
+        else if (IS("faultn")) { g_fault_at = g_access_no + I(1); g_fault_every = 0; g_fault_count = I(2); printf("= ok\n"); }   /* faultn k m: accesses k .. k+m-1 from now fail */
+        else if (IS("faultclear")) { g_fault_at = -1; g_fault_every = 0; g_fault_count = 1; printf("= ok fired=%ld\n", g_faults_fired); }
         else if (IS("readlimit")) { g_read_limit = I(1); printf("= ok\n"); }
         else if (IS("allocs")) { printf("= live=%ld\n", g_live); }
         else if (IS("newdev")) {           /* newdev d cyl heads secs [native] */
